@@ -33,6 +33,11 @@ def bounds(tier):
             "closer thread: 1 preemption at every synchronisation point of a 2-loss scenario" % ((2, 1) if tier == "quick" else (3, 2)))
 
 
+def trace_variant(desc, tier):
+    """With trace logging enabled: every outcome sequence (not the closer-thread schedules)."""
+    return desc.get("kind") != "closer"
+
+
 def tasks(tier, seed):
     ts = []
     maxk = 2 if tier == "quick" else 3
@@ -162,6 +167,10 @@ def peer_factory(kind, idx, ping):
     raise KeyError(kind)
 
 
+def spec_callbacks(run):
+    return run.spec.get("callbacks", [])
+
+
 class Harness:
     def __init__(self, d):
         self.d = d
@@ -257,6 +266,12 @@ class Harness:
         out = (res["ret"] or [None])[0]
         if out is None or out[0] != "ret":
             raise V("run-forever-raised", "run_forever: %r" % (out,))
+        # C14's clause, over reconnecting runs as well: True exactly when an error was reported during the run
+        if rel is None and "on_error" in spec_callbacks(run):
+            errs = [e for e in run.callback_trace() if e[1] == "on_error"]
+            if bool(out[1]) != bool(errs):
+                raise V("return-value", "run_forever returned %r although on_error was %s during the run (%d connection(s))" % (
+                    out[1], "called" if errs else "never called", len([e for e in run.trace if e[1] == "--connect--"])), ret=bool(out[1]))
         connects = [(e[0], e[2]) for e in run.trace if e[1] == "--connect--"]
         # expected attempt times
         exp_times = [0.0]
